@@ -113,16 +113,23 @@ def build(S, tier):
     # ------------------------------------------------------------------ single move
     # (each also with the attempt loop EXECUTED for max_attempts = 2 instead of abstracted by its invariant: bounded in the number of
     # attempts, independent of how the loop restores a vetoed attempt)
-    for preselect, unroll in ((False, None), (True, None), (False, 2), (True, 2)):
-        def run(I, preselect=preselect, unroll=unroll):
+    # `prior`: the shared context was last used by ANOTHER move (its index set is arbitrary) and this move has displaced some label
+    # before (any value, the present target included) -- any driver with two displacement moves produces such a state
+    for preselect, unroll, prior in ((False, None, False), (True, None, False), (False, 2, False), (True, 2, False), (False, None, True), (True, None, True)):
+        def run(I, preselect=preselect, unroll=unroll, prior=prior):
             st = setup(I, preselect, unroll=unroll)
             mv = st["moves"][0]
+            if prior:
+                m_prior = I.path.fresh("n_indices_left_by_another_move", "int")
+                I.path.assume(m_prior.t >= 0)
+                st["ctx"].attrs["_moving_indices"] = SArr.base(I, "indices_left_by_another_move", m_prior, (), "int")
+                mv.attrs["displaced_labels"] = I.path.fresh("label_displaced_last_time", "int")
             pre = mv.attrs["to_displace_labels"]
             ndraws0 = len(st["rng"].draws)
             r = I.call(mv, [st["ctx"]], {})
             return dict(st, r=r, mv=mv, pre=pre, ndraws0=ndraws0)
 
-        tag = ("pre-selected target" if preselect else "random target") + (f", attempt loop unrolled, max_attempts={unroll}" if unroll else "")
+        tag = ("pre-selected target" if preselect else "random target") + (f", attempt loop unrolled, max_attempts={unroll}" if unroll else "") + (", context last used by another move" if prior else "")
         label = f"{DM}.__call__[{tag}]"
         paths = S.explore(run, label, max_paths=200)
         for fn in ("__call__", "attempt_displacement", "set_labels", "register_success", "register_failure", "__init__"):
